@@ -18,6 +18,7 @@ Proof.
   set (st1 := set_r_wills st (al_remove str_eqb client (r_wills st))).
   assert (HI1 : RInvC cfg st1) by (apply RInv_set_wills; exact HI).
   match goal with |- wp _ (if ?b then _ else _) _ => destruct b end; [cbn [wp]; auto|].
+  match goal with |- wp _ (if ?b then _ else _) _ => destruct b end; [cbn [wp]; auto|].
   match goal with |- context [retain_update st1 ?t ?p ?pr] =>
     destruct (retain_update_spec cfg st1 t p pr HI1) as [HI2 F2] end.
   apply wp_bind. wp_use dl_matches_spec; [exact HI2|]. intros [st3 idxs] (HI3 & F3 & Hidx). cbn [fst snd] in *.
